@@ -1,0 +1,39 @@
+//go:build verif
+
+package flush
+
+// Contracts checked by /verif/gvc. Comment-only file (build tag verif).
+
+// The coordinator hands one notification per NotifyFlush to one WaitForFlush, through a channel.
+//@ func (*coordinator).NotifyFlush
+//@   requires fm != nil
+//@   ensures  sent(fm.flushChan) == old(sent(fm.flushChan)) + 1
+//@   modifies sent
+//@ func (*coordinator).WaitForFlush
+//@   requires fm != nil
+//@   ensures  received(fm.flushChan) == old(received(fm.flushChan)) + 1
+//@   modifies received
+// Flush triggers the registered target exactly once (if there is one).
+//@ func (*coordinator).getTarget
+//@   requires fm != nil
+//@   ensures  result == fm.t
+//@ func (*coordinator).Flush
+//@   requires fm != nil
+//@   ensures  fm.t != nil ==> calls(Flush) == old(calls(Flush)) + 1
+//@   ensures  fm.t == nil ==> calls(Flush) == old(calls(Flush))
+//@   modifies everything
+//@   preserves flush.coordinator
+
+// A flush target may do anything except reach into the coordinator.
+//@ func (Flushable).Flush
+//@   trusted
+//@   modifies everything
+//@   preserves flush.coordinator
+//@ func (Coordinator).Flush
+//@   trusted
+//@   modifies everything
+//@   preserves extension.manager
+//@ func (Coordinator).WaitForFlush
+//@   trusted
+//@   modifies everything
+//@   preserves extension.manager
